@@ -813,6 +813,31 @@ def spec_classes(spec: dict) -> list:
         classes.append("misc_order_location")
     if any(g["loc"].get("operator") == "order" for g in genes):
         classes.append("gene_order_location")
+    hulls: dict = {}
+    for gene in genes:
+        parts = gene["loc"]["parts"]
+        if _is_span(gene["loc"]):
+            forward = parts if gene["loc"]["strand"] != -1 else list(reversed(parts))
+            key = ("span", forward[0][0], gene["loc"]["strand"])
+        else:
+            key = ("hull", min(p[0] for p in parts), max(p[1] for p in parts), gene["loc"]["strand"])
+        hulls.setdefault(key, []).append(gene)
+    for key, members in hulls.items():
+        if len(members) > 1 and len({loc_len(g["loc"]) for g in members}) == len(members):
+            classes.append("gene_isoforms_same_hull" if key[0] == "hull" else "gene_span_pair_same_pre_origin_start")
+            if len(members) > 2:
+                classes.append("gene_three_same_hull")
+    long_named = [g for g in genes if len(g["name"]) > LONG_VALUE]
+    if long_named:
+        classes.append("gene_long_name")
+    if any(d["kind"] in ("tigr", "rre") for g in long_named for d in g.get("domains") or []):
+        classes.append("long_name_tigr_or_rre")
+    if any(g.get("prepeptide") for g in long_named):
+        classes.append("long_name_prepeptide")
+    if any(d["kind"] == "modular" for g in long_named for d in g.get("domains") or []):
+        classes.append("long_name_modular")
+    if any(len(g.get(key) or "") > LONG_VALUE for g in genes for key in ("protein_id", "gene")):
+        classes.append("long_protein_id_or_gene_name")
     if any(g["loc"].get("operator") == "order" and g.get("codon_start", 1) != 1 for g in genes):
         classes.append("gene_order_location_codon_start")
     if spec["header"].get("reference"):
@@ -921,14 +946,17 @@ def _header(draw) -> dict:
 
 
 @st.composite
-def _domains(draw, gene: dict, aminos: int, gindex: int, want_modular: bool) -> list:
+def _domains(draw, gene: dict, aminos: int, gindex: int, want_modular: bool, forced: tuple = ()) -> list:
     count = draw(st.integers(1, 4)) if want_modular else draw(st.sampled_from([0, 0, 1, 2, 3]))
+    count = max(count, len(forced))
     doms: list = []
     hit_counts: dict = {}
     # cut points in residue space, sorted, so that modular domains come in position order (as the pipeline adds them)
     for dindex in range(count):
         kind = "modular" if want_modular and draw(st.integers(0, 3)) else draw(
             st.sampled_from(["pfam", "pfam", "generic", "tigr", "rre", "motif", "modular"]))
+        if dindex < len(forced):
+            kind = forced[dindex]
         start = draw(gen.coord(0, aminos - 1))
         end = draw(gen.coord(start + 1, aminos))
         dom: dict = {"kind": kind, "aa": [start, end], "evalue": draw(_evalue()), "score": draw(_score())}
@@ -1028,6 +1056,13 @@ def _gene_details(draw, gene: dict, gindex: int, circular: bool, modular_bias: b
     gene["ident"] = draw(st.sampled_from(["locus_tag"] * 8 + ["protein_id", "gene"]))
     gene["protein_id"] = draw(st.sampled_from([None, None, f"WP_{gindex:09d}.1"])) if gene["ident"] == "locus_tag" else None
     gene["gene"] = draw(st.sampled_from([None, None, f"abc{chr(65 + gindex % 26)}"])) if gene["ident"] == "locus_tag" else None
+    if len(gene["name"]) > LONG_VALUE:
+        # a long name is a locus tag (what assembly pipelines produce); now and then the secondary identifiers are long too
+        gene["ident"] = "locus_tag"
+        gene["protein_id"] = f"prot{gindex}_" + "LongProteinIdentifierFromSomeOtherPipeline_v2_"[:draw(st.integers(45, 46))] \
+            if draw(_one_in(4)) else None
+        gene["gene"] = f"gene{gindex}" + "WithAVeryLongGeneNameNobodyShouldEverUseButSomeDo"[:draw(st.integers(42, 49))] \
+            if draw(_one_in(8)) else None
     gene["gene_feature"] = draw(_one_in(3))
     gene["translation"] = draw(st.sampled_from(["given", "given", "given", "computed"]))
     gene["short"] = draw(st.sampled_from([0, 1, 1]))
@@ -1068,12 +1103,15 @@ def _gene_details(draw, gene: dict, gindex: int, circular: bool, modular_bias: b
                        draw(st.sampled_from(["rule-based-clusters", "cassis"]))])
     gene["secmet"] = secmet
     want_modular = modular_bias and not draw(_one_in(3))
-    gene["domains"] = draw(_domains(gene, aminos, gindex, want_modular))
+    long_name = len(gene["name"]) > LONG_VALUE
+    # the features that name their gene and are found through it: TIGRFam / RRE domains, precursor peptides
+    forced = (draw(st.sampled_from(["tigr", "rre"])),) if long_name and not draw(_one_in(4)) else ()
+    gene["domains"] = draw(_domains(gene, aminos, gindex, want_modular, forced))
     gene["nrps_type"] = draw(st.sampled_from(NRPS_TYPES)) if any(d["kind"] == "modular" for d in gene["domains"]) else None
     gene["prepeptide"] = None
     whole = loc_len(shifted(loc, codon_start)) % 3 == 0 and not any(gene["fuzzy"])
     plain = not span and loc["strand"] == 1
-    if aminos >= 3 and (plain or draw(_one_in(3))) and draw(_one_in(4 if whole else 24)):
+    if aminos >= 3 and (plain or draw(_one_in(3))) and draw(_one_in((2 if long_name else 4) if whole else 24)):
         gene["prepeptide"] = draw(_prepeptide(aminos))
 
 
@@ -1255,6 +1293,46 @@ def _modules(draw, genes: list, length: int) -> list:
 
 
 @st.composite
+def _isoforms_and_origin_pairs(draw, genes: list, length: int, circular: bool) -> list:
+    """ genes that share their first and last coordinate with another gene of the same strand but differ in their
+        exons (1-2 isoforms of one gene), and on circular records a pair of origin-crossing genes whose pre-origin
+        part starts at the same coordinate.  Their summed lengths differ, so the record's ordering (start, then
+        summed length) still tells them apart: these are NOT equal-coordinate ties. """
+    extra: list = []
+    taken = {(repr(sorted(g["loc"]["parts"])), g["loc"]["strand"]) for g in genes}
+    lengths = {(min(p[0] for p in g["loc"]["parts"]), loc_len(g["loc"])) for g in genes}
+
+    def add(parts: list, strand: int, kind: str) -> None:
+        key = (repr(sorted(parts)), strand)
+        size = sum(e - s for s, e in parts)
+        start_key = parts[0][0] if kind == "span" else min(p[0] for p in parts)
+        if key in taken or (start_key, size) in lengths:
+            return
+        taken.add(key)
+        lengths.add((start_key, size))
+        ordered = list(reversed(parts)) if strand == -1 else parts
+        extra.append({"loc": {"parts": ordered, "strand": strand, "kind": kind}})
+
+    candidates = [g for g in genes if not gen.is_span(g["loc"])
+                  and max(p[1] for p in g["loc"]["parts"]) - min(p[0] for p in g["loc"]["parts"]) >= 15]
+    if candidates and draw(_one_in(4)):
+        base = draw(st.sampled_from(candidates))
+        start = min(p[0] for p in base["loc"]["parts"])
+        end = max(p[1] for p in base["loc"]["parts"])
+        for _ in range(draw(st.sampled_from([1, 1, 2]))):
+            cut1 = draw(st.integers(start + 3, end - 7))
+            cut2 = draw(st.integers(cut1 + 1, end - 3))
+            add([[start, cut1], [cut2, end]], base["loc"]["strand"], "multi")
+    if circular and length >= 60 and draw(_one_in(4)):
+        pre = draw(st.integers(3, max(3, min(length // 4, 60))))
+        strand = draw(st.sampled_from([1, -1]))
+        posts = draw(st.lists(st.integers(3, max(3, min(length // 4, 60))), min_size=2, max_size=3, unique=True))
+        for post in posts:
+            add([[length - pre, length], [0, post]], strand, "span")
+    return extra
+
+
+@st.composite
 def _many_areas(draw, length: int, circular: bool) -> tuple:
     """ the "two digit" family: 10-14 small genes in a row, a protocluster on each (some genes carry a second one
         of another product: chemical hybrids), neighbourhoods that reach the neighbour for a drawn share of the
@@ -1359,8 +1437,13 @@ def record_specs(draw, *, max_len: int = 5000, max_genes: int = 8, max_protoclus
             keys.add(key)
             kept.append(gene)
         genes = kept
-        for index, gene in enumerate(genes):
-            gene["name"] = f"g{index}"
+    genes.extend(draw(_isoforms_and_origin_pairs(genes, length, circular)))
+    long_names = draw(_one_in(5))
+    for index, gene in enumerate(genes):
+        gene["name"] = f"g{index}"
+        if long_names and not draw(_one_in(3)):
+            # locus tags longer than one GenBank qualifier line (46 characters and up get wrapped)
+            gene["name"] = (f"g{index}_" + "LongLocusTagOfAnAssemblyPipeline_contig000123_" * 2)[:draw(st.integers(47, 70))]
     modular_bias = draw(st.booleans())
     notes_bias = draw(st.sampled_from([0, 1, 1]))
     seen = {repr(gene["loc"]["parts"]) + str(gene["loc"]["strand"]) for gene in genes}
